@@ -2,6 +2,7 @@
 // real CFG-level passes (ssa/pass.go, pass_cfg.go, pass_blk_layouts.go) produce them, for
 //   - hand-written CFG-heavy functions (shapes.go), which are also run on both engines here, and
 //   - every module whose hex is given on stdin (the modules checks/c01.py has just run on both engines and in W).
+//
 // One JSON line per module.
 package main
 
